@@ -384,6 +384,25 @@ async fn run(case: &Case, ctx: &mut Ctx) -> Option<Violation> {
                     if m2.entry_count() != m.entry_count() {
                         return Err(("unusable_after_recovery".to_string(), format!("after a further save + load the index has {} entries, expected {}", m2.entry_count(), m.entry_count())));
                     }
+                    // ... and so does a FLUSH by the recovered instance (a shorter file than a save with pending
+                    // updates: whatever an interrupted save left behind must not leak into it). The whole
+                    // content is compared, not just the new key.
+                    let fresh2 = {
+                        let mut k = idx_key(201);
+                        k[10] = 0x78;
+                        k
+                    };
+                    m2.add_entry(&EncodingKey::from_bytes(fresh2), 8, 9, 10).map_err(|e| ("unusable_after_recovery".to_string(), format!("add_entry on the reloaded index failed: {e}")))?;
+                    let want: BTreeMap<[u8; 9], (u16, u32, u32)> = m2.iter_entries().map(|(_, e)| (e.key, (e.archive_id(), e.archive_offset(), e.size))).collect();
+                    m2.flush_all_updates().map_err(|e| ("unusable_after_recovery".to_string(), format!("flush_all_updates on the recovered index failed: {e}")))?;
+                    let mut m3 = IndexManager::new(&img);
+                    m3.load_all().await.map_err(|e| ("unusable_after_recovery".to_string(), format!("load_all after a further flush failed: {e}")))?;
+                    let got3: BTreeMap<[u8; 9], (u16, u32, u32)> = m3.iter_entries().map(|(_, e)| (e.key, (e.archive_id(), e.archive_offset(), e.size))).collect();
+                    if got3 != want {
+                        let ghosts = got3.keys().filter(|k| !want.contains_key(*k)).count();
+                        let lost = want.keys().filter(|k| !got3.contains_key(*k)).count();
+                        return Err(("unusable_after_recovery".to_string(), format!("after a flush by the recovered index and a reload, {} entries are listed, {} were flushed ({ghosts} that were never committed, {lost} lost, the rest possibly changed)", got3.len(), want.len())));
+                    }
                     Ok(all_new)
                 })
             });
